@@ -593,6 +593,13 @@ class S:
     def __bool__(s):
         return bool(s != 0)
 
+    def __int__(s):
+        """C-style cast (what numpy does when a real lands in an integer-typed array): truncation towards zero, decided for constants only"""
+        v = z3.simplify(s.t)
+        if z3.is_rational_value(v):
+            return int(fractions.Fraction(v.numerator_as_long(), v.denominator_as_long()))
+        raise Inconclusive("symbolic real stored into an integer-typed array (value would be truncated): " + str(s.t)[:80])
+
     def conjugate(s):
         return s
 
